@@ -13,6 +13,8 @@ REGIONS = {
     "macro_fallback_unsigned_wrap": "macro_fallback_unsigned_wrap: with --clang-macro-fallback an unsigned value >= 2^63 is carried as i64 and emitted negative (((unsigned long long)-1) -> i32 = -1); equals the model's prediction",
     "enum_bool_translated": "enum_bool_translated: enum with underlying type bool under --translate-enum-integer-types and a non-Rust style gets repr u8 but bool literals (pub struct E(pub u8); E(false)) -> rustc rejects; equals the model's prediction",
     "wchar_treated_unsigned": "wchar_treated_unsigned: wchar_t (signed int on this target) is treated as unsigned: const wchar_t w = -1 -> `u32 = 18446744073709551615` (rustc rejects), enum E : wchar_t { A = -1 } -> u32 4294967295; equals the model's prediction",
+    "template_nested_enum_zero": "template_nested_enum_zero: enumerators of an enum nested in a class template are all emitted as 0 (template<typename T> struct W5 { enum Inner { kW5a = 3, kW5b = 7, kW5c = -2 }; }; -> W5_Inner_kW5a = 0, ...); C++ computes 3, 7, -2",
+    "function_like_macro_as_constant": "function_like_macro_as_constant: `#define kFL1 1` / `#define kFLK(kFL1) +2` is emitted as `pub const kFLK: u32 = 3` (the token list is read as an object-like definition); `kFLK` alone has no value in C",
     "constvar_long_double": "constvar_long_double: const long double x = 1.5L -> `pub const x: u128 = 1.5;` (rustc rejects); equals the model's prediction",
 }
 
